@@ -376,6 +376,8 @@ type c12Target struct {
 	attempts map[string]int
 	running  map[string]int
 	okCount  map[string]int // final outcomes: accepted, or rejected for good
+	panicAt  map[string]int // controlled mode: the next attempt of the message panics (stage n%4, kind of panic value n/4)
+	panicked map[string]int // panics thrown so far, per message
 	events   []string
 	viol     []string
 	yield    bool
@@ -404,6 +406,35 @@ type c12Delivery struct {
 	stage int
 	final bool // err is a permanent rejection
 	ended bool
+	boom  int // >= 0: the target panics at stage boom%4 with a panic value of kind boom/4
+}
+
+// A fault of the code the queue calls (delivery target, modifier, a library below them): it panics
+// in the middle of an attempt.  The kinds of panic value: a string, an error, a genuine
+// runtime.Error (assignment to an entry of a nil map), a value of a type of its own.
+type c12Oops struct{ what string }
+
+var c12PanicKindName = []string{"string", "error", "runtime-error", "custom-type"}
+
+func c12Panic(kind int) {
+	switch kind % 4 {
+	case 0:
+		panic("c12: scripted panic of the delivery target")
+	case 1:
+		panic(errors.New("c12: scripted panic of the delivery target (error value)"))
+	case 2:
+		var m map[string]int
+		m["c12"] = 1
+	}
+	panic(c12Oops{"c12: scripted panic of the delivery target (custom type)"})
+}
+
+// boomAt: the scripted panic of this delivery is due at this stage of the dialogue.
+func (d *c12Delivery) boomAt(stage int) {
+	if d.boom >= 0 && d.boom%4 == stage {
+		d.end()
+		c12Panic(d.boom / 4)
+	}
 }
 
 // answer with the scripted error; a permanent one is a final outcome of the message
@@ -450,13 +481,33 @@ func (t *c12Target) Start(ctx context.Context, msgMeta *module.MsgMetadata, mail
 	k := t.attempts[id]
 	t.attempts[id]++
 	fail := false
+	boom := -1
 	if t.plan != nil {
 		p := t.plan[id]
 		fail = k < len(p) && p[k] == 1
+		if k < len(p) && p[k] >= 2 {
+			boom = (p[k] - 2) % 16
+		}
 	} else {
 		fail = t.decision[id] == 1
+		if n, ok := t.panicAt[id]; ok {
+			delete(t.panicAt, id)
+			boom = n % 16
+		}
 	}
-	d := &c12Delivery{t: t, id: id}
+	if boom >= 0 {
+		t.panicked[id]++
+		if t.stat != nil {
+			t.stat("target.panic-at-" + c12StageName[boom%4])
+			t.stat("target.panic-value-" + c12PanicKindName[boom/4])
+		}
+		if boom%4 == c12AtStart {
+			t.running[id]--
+			c12Panic(boom / 4) // (the deferred Unlock runs)
+		}
+		return &c12Delivery{t: t, id: id, boom: boom}, nil
+	}
+	d := &c12Delivery{t: t, id: id, boom: -1}
 	d.err, d.stage = c12Outcome(id, k, fail)
 	d.final = d.err != nil && !fail
 	if t.stat != nil {
@@ -480,12 +531,14 @@ func (t *c12Target) Start(ctx context.Context, msgMeta *module.MsgMetadata, mail
 }
 
 func (d *c12Delivery) AddRcpt(ctx context.Context, to string, _ smtp.RcptOptions) error {
+	d.boomAt(c12AtRcpt)
 	if d.err != nil && d.stage == c12AtRcpt {
 		return d.reject()
 	}
 	return nil
 }
 func (d *c12Delivery) Body(ctx context.Context, header textproto.Header, body buffer.Buffer) error {
+	d.boomAt(c12AtBody)
 	if d.err != nil && d.stage == c12AtBody {
 		return d.reject()
 	}
@@ -501,6 +554,7 @@ func (d *c12Delivery) end() {
 }
 func (d *c12Delivery) Abort(ctx context.Context) error { d.end(); return nil }
 func (d *c12Delivery) Commit(ctx context.Context) error {
+	d.boomAt(c12AtCommit)
 	if d.err != nil && d.stage == c12AtCommit {
 		d.end() // the queue does not call Abort after a failed Commit
 		return d.reject()
@@ -513,7 +567,8 @@ func (d *c12Delivery) Commit(ctx context.Context) error {
 }
 
 func c12NewTarget() *c12Target {
-	return &c12Target{decision: map[string]int{}, attempts: map[string]int{}, running: map[string]int{}, okCount: map[string]int{}}
+	return &c12Target{decision: map[string]int{}, attempts: map[string]int{}, running: map[string]int{}, okCount: map[string]int{},
+		panicAt: map[string]int{}, panicked: map[string]int{}}
 }
 
 // ---------------------------------------------------------------- common set-up
@@ -651,6 +706,9 @@ type c12World struct {
 	resolved      map[string]reflect.Value
 	mutexes       []interface{}
 	lastEntries   map[c12Ent]int
+	boomG         map[int]bool // attempt goroutines whose delivery was scripted to panic
+	boomMsg       map[int]bool // their messages
+	quarLate      int          // Close returned while the quarantine rename of such a message was still to come
 }
 
 func (w *c12World) pc(g *c12sched.G) string {
@@ -1015,9 +1073,9 @@ func (w *c12World) grant(gs ...*c12sched.G) {
 			w.pushedE[e] += n - before[e]
 		}
 	}
-	for _, g := range w.thr {
-		if !g.Finished && w.pc(g) == "discard" {
-			w.discardSeen = true
+	for i, g := range w.thr {
+		if !g.Finished && w.pc(g) == "discard" && !w.boomG[i] {
+			w.discardSeen = true // a panic nobody scripted: the queue's own
 		}
 	}
 	if w.clo != nil && w.clo.Finished && !w.closeReturned {
@@ -1025,6 +1083,13 @@ func (w *c12World) grant(gs ...*c12sched.G) {
 		// Close returns only after every in-flight attempt has finished (nothing of the old process
 		// touches the spool once the restart may begin), and the scheduler goroutine is gone
 		for i, g := range w.thr {
+			if w.kind[i] == "a" && !g.Finished && w.boomG[i] && w.pc(g) == "discard" {
+				// the attempt is over (semaphore released, deliveryWg.Done); what is left is the quarantine of
+				// the message whose delivery panicked: the code calls discardBroken after Done
+				// (Lean: C12_quarantine_may_follow_close); the rename itself is checked after the drain
+				w.quarLate++
+				continue
+			}
 			if w.kind[i] == "a" && !g.Finished {
 				w.lateAttempts = append(w.lateAttempts, fmt.Sprintf("attempt goroutine %d (message %d) still at %s", i, w.msgOf[i], w.pc(g)))
 			}
@@ -1036,7 +1101,7 @@ func (w *c12World) grant(gs ...*c12sched.G) {
 }
 
 type c12Tok struct {
-	kind string // t c k kb kt ku ks a
+	kind string // t tp c k kb kt ku ks a
 	i    int
 	c    int
 }
@@ -1054,6 +1119,14 @@ func c12ParseTok(s string) (c12Tok, bool) {
 	case strings.HasPrefix(s, "a"):
 		v, err := strconv.Atoi(s[1:])
 		return c12Tok{kind: "a", c: v}, err == nil
+	case strings.HasPrefix(s, "tp"):
+		f := strings.Split(s[2:], ".")
+		if len(f) != 2 {
+			return c12Tok{}, false
+		}
+		i, e1 := strconv.Atoi(f[0])
+		c, e2 := strconv.Atoi(f[1])
+		return c12Tok{kind: "tp", i: i, c: c}, e1 == nil && e2 == nil && i >= 0 && c >= 0 && c < 16
 	case strings.HasPrefix(s, "t"):
 		f := strings.Split(s[1:], ".")
 		if len(f) != 2 {
@@ -1076,6 +1149,8 @@ func (t c12Tok) String() string {
 		return "a" + strconv.Itoa(t.c)
 	case "t":
 		return fmt.Sprintf("t%d.%d", t.i, t.c)
+	case "tp":
+		return fmt.Sprintf("tp%d.%d", t.i, t.c)
 	}
 	return t.kind
 }
@@ -1100,6 +1175,13 @@ func (w *c12World) can(t c12Tok) bool {
 			return false
 		}
 		return w.solo(w.pt(w.thr[t.i]))
+	case "tp":
+		// the attempt is inside the delivery (parked in the scripted target's Start): the target can panic
+		if t.i < 0 || t.i >= len(w.thr) || t.c < 0 || t.c >= 16 {
+			return false
+		}
+		g := w.thr[t.i]
+		return !g.Finished && c12Base(g.Label) == "c12target/deliver"
 	case "c":
 		return w.solo(w.pt(w.clo))
 	case "k":
@@ -1233,6 +1315,17 @@ func (w *c12World) do(t c12Tok) {
 			r()
 			delete(w.bad, t.i)
 		}
+	case "tp":
+		g := w.thr[t.i]
+		w.tgt.mu.Lock()
+		w.tgt.panicAt[c12MsgID(w.msgOf[t.i])] = t.c
+		w.tgt.mu.Unlock()
+		w.boomG[t.i] = true
+		w.boomMsg[w.msgOf[t.i]] = true
+		w.out.Stat("sched.target-panic.close-at-" + w.pc(w.clo))
+		w.out.Stat(fmt.Sprintf("sched.target-panic.other-attempts-in-flight.%d", w.wgReal()-1))
+		w.grant(g)
+		w.out.Stat("sched.target-panic.then-at-" + w.pc(g))
 	case "c":
 		w.grant(w.clo)
 	case "k", "kb":
@@ -1417,7 +1510,8 @@ func (s c12Scn) opPrefix() string {
 }
 
 func c12Setup(out *vh.Out, scn c12Scn) *c12World {
-	w := &c12World{out: out, scn: scn, pushedE: map[c12Ent]int{}, terminal: map[int]bool{}, closed: map[uintptr]bool{}, bad: map[int]func(){}, resolved: map[string]reflect.Value{}}
+	w := &c12World{out: out, scn: scn, pushedE: map[c12Ent]int{}, terminal: map[int]bool{}, closed: map[uintptr]bool{}, bad: map[int]func(){}, resolved: map[string]reflect.Value{},
+		boomG: map[int]bool{}, boomMsg: map[int]bool{}}
 	w.dir = c12TempDir()
 	w.ctl = c12sched.NewControlled()
 	w.ctl.Auto = w.auto
@@ -1509,6 +1603,11 @@ func (w *c12World) candidates(r *vh.Rng, lazyTick bool) []c12Tok {
 		}
 		c = append(c, c12Tok{kind: "t", i: i, c: ch})
 		c = append(c, c12Tok{kind: "ku", i: i})
+		// the delivery panics (any stage of the dialogue, any kind of panic value); now and then offered
+		// to a goroutine that is not inside a delivery (not enabled)
+		if (w.pc(w.thr[i]) == "deliver" && r.Chance(14)) || r.Chance(1) {
+			c = append(c, c12Tok{kind: "tp", i: i, c: r.Intn(16)})
+		}
 	}
 	if r.Chance(5) {
 		c = append(c, c12Tok{kind: "t", i: len(w.thr) + r.Intn(2)}, c12Tok{kind: "ku", i: len(w.thr)})
@@ -1562,11 +1661,11 @@ func c12RunControlled(out *vh.Out, scn c12Scn, sched []c12Tok, r *vh.Rng, steps 
 		done = append(done, t.String())
 		what := t.kind
 		switch t.kind {
-		case "t":
+		case "t", "tp":
 			if t.i < len(w.thr) {
-				what = "t." + pcBefore(w.thr[t.i])
+				what = t.kind + "." + pcBefore(w.thr[t.i])
 			} else {
-				what = "t.no-such-goroutine"
+				what = t.kind + ".no-such-goroutine"
 			}
 		case "k", "kb":
 			what = t.kind + "." + pcBefore(w.tick)
@@ -1712,9 +1811,15 @@ func c12Monitor(w *c12World, op string) {
 			alive++
 			out.Violation("C12/goroutine-stuck", op, fmt.Sprintf("goroutine %d (%s) blocked forever at %s", i, w.kind[i], w.pc(g)))
 		}
-		if g.Panic != nil {
+		if g.Panic != nil && w.boomG[i] {
+			// the harness's own recover at the top of the goroutine caught it: in the real process nothing would have
+			out.Violation("C12/panic-not-contained", op, fmt.Sprintf("the delivery attempt of message %d panicked (%v) and the panic left the dispatch goroutine: the process would have crashed (shutdown does not terminate, the other messages are not delivered) instead of the message being set aside", w.msgOf[i], g.Panic))
+		} else if g.Panic != nil {
 			out.Violation("C12/panic", op, fmt.Sprintf("goroutine %d (%s) panicked: %v", i, w.kind[i], g.Panic))
 		}
+	}
+	if w.quarLate > 0 {
+		out.Stat("sched.target-panic.quarantine-pending-when-close-returned")
 	}
 	if w.clo != nil && w.clo.Panic != nil {
 		out.Violation("C12/panic", op, fmt.Sprintf("Close panicked: %v", w.clo.Panic))
@@ -1808,8 +1913,22 @@ func c12Monitor(w *c12World, op string) {
 	// spool after shutdown / quiescence
 	sp := c12ReadSpool(w.dir, len(w.scn.times))
 	for i, s := range sp {
+		w.tgt.mu.Lock()
+		boomed := w.tgt.panicked[c12MsgID(i)] > 0
+		w.tgt.mu.Unlock()
+		if s.broken && boomed {
+			out.Stat("sched.target-panic.quarantined")
+			if !(s.header && s.body) || s.meta {
+				out.Violation("C12/removed-without-outcome", op, fmt.Sprintf("message %d was quarantined after its delivery panicked but its spool entry is not intact (meta=%v header=%v body=%v)", i, s.meta, s.header, s.body))
+			}
+			continue
+		}
 		if s.broken {
 			out.Violation("C12/meta-broken", op, fmt.Sprintf("message %d was renamed to .meta_broken: a restart does not pick it up", i))
+			continue
+		}
+		if boomed {
+			out.Violation("C12/panic-not-quarantined", op, fmt.Sprintf("the delivery of message %d panicked and nothing is left to run, but the message was not set aside (.meta_broken): it is dispatched and panics again after every restart", i))
 			continue
 		}
 		if w.terminal[i] {
@@ -1843,6 +1962,12 @@ var c12Corpus = []string{
 	// an earlier entry is added between the expiry of the timer and the removal of the entry the wheel slept for
 	"C12 run f 2 0 5:0,2:0 t0.0,t0.0,t0.0,k,k,k,k,ku0,a5,kt,t1.0,t1.0,t1.0,k,k,k,ku1,k,k,k,k,kt,k,k,k,t2.0,t3.0",
 	"C12 run f 2 1 5:0,2:0 t0.0,t0.0,t0.0,k,k,k,k,ku0,t1.0,t1.0,t1.0,a5,kt,k,k,k,ku1,k,k,k,k,kt,k,k,k,c,t2.0,t3.0",
+	// the delivery of a message panics (in Commit, error value) while Close waits in deliveryWg.Wait() and another
+	// producer has not yet called Add (Lean: panicSched); … at Start with a runtime error, no shutdown, a second
+	// message due at the same time; … in Body (custom type) with the semaphore full and another message waiting for it
+	"C12 run f 1 1 0:0,2:0 t0.0,t0.0,t0.0,k,k,k,k,ku0,kt,k,k,k,t2.0,c,k,k,k,ks,k,c,c,tp2.7,c,t2.0,c,t2.0",
+	"C12 run f 2 0 0:0,0:0 t0.0,t0.0,t0.0,t1.0,t1.0,t1.0,k,k,k,k,ku0,ku1,kt,k,k,k,k,k,k,k,kt,k,k,k,t2.0,t3.0,tp2.8,t3.0,t2.0,t3.0,t2.0",
+	"C12 run f 1 1 0:1,0:1 t0.0,t0.0,t0.0,t1.0,t1.0,t1.0,k,k,k,k,ku0,ku1,kt,k,k,k,k,k,k,k,kt,k,k,k,t2.0,t3.0,tp2.14,c,t2.0,t3.0,t2.0,t3.3",
 }
 
 func TestVerifC12Sched(t *testing.T) {
@@ -1934,7 +2059,7 @@ func TestVerifC12Sched(t *testing.T) {
 
 // scenarios that ended in a 15 s (free mode) / 20 s (controlled mode) time-out so far: after a few
 // of them the rest of the batch is skipped (the verdict is clear, a broken tree would take many minutes)
-var c12FreeHangs, c12SchedHangs int32
+var c12FreeHangs, c12SchedHangs, c12FreeQuarMisses int32
 
 const c12MaxHangs = 8
 
@@ -1965,6 +2090,18 @@ func c12RunFree(out *vh.Out, seed uint64) {
 			}
 		}
 		tgt.plan[c12MsgID(i)] = p
+	}
+	// in a quarter of the scenarios the delivery of one message panics at its first or second attempt
+	// (plan value 2+n: stage n%4 of the dialogue, kind of panic value n/4); panic recovery is active
+	// (not the message whose meta-data file is going to be out of reach for a while: the quarantine is a rename of that file)
+	victim := -1
+	if r.Chance(35) {
+		victim = r.Intn(np)
+	}
+	if r.Chance(25) {
+		if m := r.Intn(np); m != victim {
+			tgt.plan[c12MsgID(m)][r.Intn(2)] = 2 + r.Intn(16)
+		}
 	}
 	q := c12NewQueue(dir, tgt, budget+1)
 	q.initialRetryTime = retry
@@ -2005,10 +2142,6 @@ func c12RunFree(out *vh.Out, seed uint64) {
 	// the operator's hand (or a full file table): once the first attempt of one message has failed, its
 	// meta-data file is out of reach until the shutdown is over; a retry dispatched meanwhile cannot
 	// open the message
-	victim := -1
-	if r.Chance(35) {
-		victim = r.Intn(np)
-	}
 	hideAfter := time.Duration(r.Intn(400)) * time.Microsecond
 	stopHide := make(chan struct{})
 	hideDone := make(chan struct{})
@@ -2087,13 +2220,51 @@ func c12RunFree(out *vh.Out, seed uint64) {
 			out.Violation("C12/free-run/panic", op, fmt.Sprintf("%s panicked: %v", g.Name, pv))
 		}
 	}
+	tgt.mu.Lock()
+	boomed := map[string]bool{}
+	nboom := 0
+	for id, n := range tgt.panicked {
+		boomed[id] = n > 0
+		nboom += n
+	}
+	tgt.mu.Unlock()
+	died := 0
 	for _, g := range ctl.All() {
 		if fin, pv := g.Result(); fin && pv != nil && strings.HasPrefix(g.Name, "Queue.dispatch") {
-			out.Violation("C12/free-run/panic", op, fmt.Sprintf("dispatch goroutine died: %v", pv))
+			died++
+			if nboom > 0 {
+				out.Violation("C12/free-run/panic-not-contained", op, fmt.Sprintf("the panic of a delivery attempt left the dispatch goroutine (%v): the process would have crashed instead of setting the message aside", pv))
+			} else {
+				out.Violation("C12/free-run/panic", op, fmt.Sprintf("dispatch goroutine died: %v", pv))
+			}
 		}
 	}
+	if nboom > 0 && died == 0 {
+		// the quarantine rename comes after deliveryWg.Done: wait for it (generously; no verdict depends on how long
+		// it takes; once a few scenarios have waited in vain the verdict is clear and the rest waits 300 ms only)
+		patience := 10 * time.Second
+		if atomic.LoadInt32(&c12FreeQuarMisses) >= 4 {
+			patience = 300 * time.Millisecond
+		}
+		missing := false
+		for end := time.Now().Add(patience); time.Now().Before(end); time.Sleep(200 * time.Microsecond) {
+			missing = false
+			for id := range boomed {
+				if _, err := os.Stat(filepath.Join(dir, id+".meta_broken")); err != nil {
+					missing = true
+				}
+			}
+			if !missing {
+				break
+			}
+		}
+		if missing {
+			atomic.AddInt32(&c12FreeQuarMisses, 1)
+		}
+		out.Stat("free.target-panic")
+	}
 	ctl.Abandon()
-	if ctl.Count("Queue.discardBroken/entry#1") > 0 {
+	if n := ctl.Count("Queue.discardBroken/entry#1"); n > nboom {
 		out.Violation("C12/free-run/panic", op, "a panic was recovered in the dispatch goroutine (discardBroken entered)")
 	}
 	dmu.Lock()
@@ -2119,8 +2290,16 @@ func c12RunFree(out *vh.Out, seed uint64) {
 	left := 0
 	for i, s := range sp {
 		id := c12MsgID(i)
+		if s.broken && boomed[id] {
+			out.Stat("free.target-panic.quarantined")
+			continue
+		}
 		if s.broken {
 			out.Violation("C12/free-run/meta-broken", op, fmt.Sprintf("message %d was renamed to .meta_broken", i))
+			continue
+		}
+		if boomed[id] {
+			out.Violation("C12/free-run/panic-not-quarantined", op, fmt.Sprintf("the delivery of message %d panicked but the message was not set aside (.meta_broken)", i))
 			continue
 		}
 		// terminal: delivered, or failed for good (temporary failure on the last allowed attempt)
@@ -2193,10 +2372,14 @@ func c12RunFree(out *vh.Out, seed uint64) {
 	if ents, _ := os.ReadDir(dir); len(ents) != 0 {
 		var names []string
 		for _, e := range ents {
+			// a quarantined message keeps its files
+			if i := c12MsgIdx(strings.TrimSuffix(e.Name(), filepath.Ext(e.Name()))); i >= 0 && i < len(sp) && sp[i].broken && filepath.Ext(e.Name()) != ".meta" {
+				continue
+			}
 			names = append(names, e.Name())
 		}
 		out.Stat("free.spool-not-empty-after-restart")
-		if len(names) > 0 && !strings.Contains(strings.Join(names, ","), "meta_broken") {
+		if len(names) > 0 {
 			out.Violation("C12/free-run/not-recovered-after-restart", op, "left in the spool: "+strings.Join(names, ","))
 		}
 	}
